@@ -162,7 +162,7 @@ def gen_plan(seed, kinds, big=False):
     rf = st("faults")
     faults = []
     for _ in range(rf.choice([0, 1, 2, 3])):
-        faults.append(dict(kind=rf.choice(["restart", "clobber", "clobber", "reiter"]), rank=rf.randrange(w["W"]),
+        faults.append(dict(kind=rf.choice(["restart", "clobber", "clobber", "reiter", "peek"]), rank=rf.randrange(w["W"]),
                            pos=rf.randrange(len(epochs)), at=rf.randint(0, 6), which=rf.choice(["py", "np", "torch", "advance"]),
                            seed=rf.randint(0, 999)))
     return dict(world=w, epochs=epochs, faults=faults, sched_seed=st("sched").getrandbits(32), amb_seed=st("amb").getrandbits(31))
@@ -222,11 +222,25 @@ def run_cluster(plan, out):
         streams = [[] for _ in range(W)]
         done = [False] * W
         faults = [f for f in plan["faults"] if f["pos"] == pos and f["rank"] < W]
+        for f in faults:
+            if f["kind"] == "peek":
+                # the rank looks at the first indices of the epoch (progress bar, sanity print ...) and then iterates for real:
+                # an abandoned iteration of the same object must not change the epoch's draw
+                r = f["rank"]
+                with procs[r].on_cpu(), as_rank(r, W, implicit):
+                    pk = iter(samplers[r])
+                    for _ in range(1 + f["at"] % 3):
+                        try:
+                            next(pk)
+                        except StopIteration:
+                            break
+                    its[r] = iter(samplers[r])
+                out.count("fault:peek_then_iterate")
         fired = set()
         while not all(done):
             r = ch.choose([x for x in range(W) if not done[x]])
             for fi, f in enumerate(faults):
-                if fi in fired or f["rank"] != r or f["kind"] == "reiter" or len(streams[r]) < f["at"]:
+                if fi in fired or f["rank"] != r or f["kind"] in ("reiter", "peek") or len(streams[r]) < f["at"]:
                     continue
                 fired.add(fi)
                 if f["kind"] == "clobber":
